@@ -8,7 +8,7 @@ set_option linter.unusedSimpArgs false
 
 namespace LndModel.C15
 
-variable {H : Nat → Nat} {P : List (Nat × Nat) → Nat → Nat → Nat}
+variable {H : Nat → Nat} {P : List (Nat × Nat) → Nat → Nat → Nat} {drop : Bool}
 
 /-- the accepted htlcs of the set of `ctx` (what `inv.HTLCSet(setID, HtlcStateAccepted)` returns). -/
 def aacc (ctx : Ctx) (a : AmpInv) : List AHtlc :=
@@ -35,24 +35,26 @@ structure AddFacts (ctx : Ctx) (a : AmpInv) (total addr : Nat) : Prop where
   fresh : ∀ g ∈ a.htlcs, g.base.key ≠ ctx.key
 
 /-- the possible outcomes of `anotify`. -/
-inductive AShape (H : Nat → Nat) (P : List (Nat × Nat) → Nat → Nat → Nat) (ctx : Ctx) (a : AmpInv) :
+inductive AShape (H : Nat → Nat) (P : List (Nat × Nat) → Nat → Nat → Nat) (drop : Bool) (ctx : Ctx)
+    (a : AmpInv) :
     AmpInv → Res → List (Nat × Res) → Prop
   | same (r : Res) (msgs : List (Nat × Res)) (hr : ∀ k p ht, r ≠ .settle k p ht)
-      (hm : ∀ k kind p ht, (k, Res.settle kind p ht) ∉ msgs) : AShape H P ctx a a r msgs
+      (hm : ∀ k kind p ht, (k, Res.settle kind p ht) ∉ msgs) : AShape H P drop ctx a a r msgs
   | replaySettled (h : AHtlc) (p : Nat) (hm : h ∈ aview ctx a) (hk : h.base.key = ctx.key)
       (hs : h.base.state = .settled) (hp : h.pre = some p) (hh : h.hash = ctx.hash)
       (hH : H p = h.hash) :
-      AShape H P ctx a a (.settle .replayToSettled p ctx.height)
+      AShape H P drop ctx a a (.settle .replayToSettled p ctx.height)
         (if ctx.amp then asettleMsgs (aview ctx a) .replayToSettled p else [])
   | partialAdd (total addr : Nat) (f : AddFacts ctx a total addr)
+      (hns : ∀ g ∈ aview ctx a, g.base.state ≠ .settled)
       (hlt : sumAmt ((aacc ctx a).map (·.base)) + ctx.amt < total) :
-      AShape H P ctx a
-        { a with htlcs := a.htlcs ++ [mkAHtlc ctx total (decide (addr = a.payAddr))],
+      AShape H P drop ctx a
+        { a with htlcs := akeep drop ctx a ++ [mkAHtlc ctx total (decide (addr = a.payAddr))],
                  sets := setAccept a.sets ctx.setID ctx.amt, amtPaid := a.amtPaid + ctx.amt }
         (.accept .partialAccepted) []
   | reconFail (total addr : Nat) (f : AddFacts ctx a total addr)
       (hns : ∀ g ∈ aview ctx a, g.base.state ≠ .settled) :
-      AShape H P ctx a
+      AShape H P drop ctx a
         { cancelWhere a (fun g => g.setID == ctx.setID) with state := .canceled }
         (.fail .ampReconstruction ctx.height)
         (afailMsgs (aview ctx { cancelWhere a (fun g => g.setID == ctx.setID) with state := .canceled })
@@ -61,14 +63,14 @@ inductive AShape (H : Nat → Nat) (P : List (Nat × Nat) → Nat → Nat → Na
       (hge : total ≤ sumAmt ((aacc ctx a).map (·.base)) + ctx.amt)
       (h0 : H (P (adescs ctx (aacc ctx a)) ctx.share ctx.index) = ctx.hash)
       (hall : ∀ g ∈ aacc ctx a, H (P (adescs ctx (aacc ctx a)) g.share g.index) = g.hash) :
-      AShape H P ctx a
-        { a with htlcs := (a.htlcs ++ [mkAHtlc ctx total (decide (addr = a.payAddr))]).map
+      AShape H P drop ctx a
+        { a with htlcs := (akeep drop ctx a ++ [mkAHtlc ctx total (decide (addr = a.payAddr))]).map
                    (settleOne P ctx (adescs ctx (aacc ctx a))),
                  sets := setSettle (setAccept a.sets ctx.setID ctx.amt) ctx.setID,
                  amtPaid := a.amtPaid + ctx.amt }
         (.settle .settled (P (adescs ctx (aacc ctx a)) ctx.share ctx.index) ctx.height)
         (asettleMsgs (aview ctx
-          { a with htlcs := (a.htlcs ++ [mkAHtlc ctx total (decide (addr = a.payAddr))]).map
+          { a with htlcs := (akeep drop ctx a ++ [mkAHtlc ctx total (decide (addr = a.payAddr))]).map
                      (settleOne P ctx (adescs ctx (aacc ctx a))),
                    sets := setSettle (setAccept a.sets ctx.setID ctx.amt) ctx.setID,
                    amtPaid := a.amtPaid + ctx.amt }) .settled
@@ -112,9 +114,9 @@ theorem areplay_cases (ctx : Ctx) (view : List AHtlc) {r : Res} (hr : areplay H 
           exact ⟨h, p, hm, hk, hs, hp, c'.1, c'.2, rfl⟩
 
 theorem anotify_shape (ctx : Ctx) (a : AmpInv) :
-    AShape H P ctx a (anotify H P ctx a).1 (anotify H P ctx a).2.1 (anotify H P ctx a).2.2 := by
+    AShape H P drop ctx a (anotify H P drop ctx a).1 (anotify H P drop ctx a).2.1 (anotify H P drop ctx a).2.2 := by
   have nofail : ∀ (fr : FailReason) (ht : Int) (msgs : List (Nat × Res)),
-      (∀ k kind p h, (k, Res.settle kind p h) ∉ msgs) → AShape H P ctx a a (.fail fr ht) msgs :=
+      (∀ k kind p h, (k, Res.settle kind p h) ∉ msgs) → AShape H P drop ctx a a (.fail fr ht) msgs :=
     fun fr ht msgs hm => AShape.same _ _ (by intro k p h e; cases e) hm
   have nom : ∀ k kind p h, (k, Res.settle kind p h) ∉ ([] : List (Nat × Res)) := by
     intro k kind p h hm; cases hm
@@ -181,7 +183,14 @@ theorem anotify_shape (ctx : Ctx) (a : AmpInv) :
           exact ⟨g, hg, by simp [hk]⟩
       by_cases d1 : sumAmt (((aview ctx a).filter (fun h => h.base.state == .accepted)).map (·.base)) + ctx.amt < total
       · rw [if_pos d1]
-        exact AShape.partialAdd total addr facts d1
+        by_cases d0 : ((aview ctx a).any fun g => g.base.state == .settled) = true
+        · rw [if_pos d0]; exact AShape.same _ _ (by intro k p h e; cases e) nom
+        · rw [if_neg d0]
+          refine AShape.partialAdd total addr facts ?_ d1
+          intro g hg hs
+          apply d0
+          rw [List.any_eq_true]
+          exact ⟨g, hg, by simp [hs]⟩
       rw [if_neg d1]
       have hacc : (aview ctx a).filter (fun h => h.base.state == .accepted) = aacc ctx a := rfl
       by_cases d2 : (!(decide (H (P (adescs ctx (aacc ctx a)) ctx.share ctx.index) = ctx.hash) &&
@@ -202,6 +211,34 @@ theorem anotify_shape (ctx : Ctx) (a : AmpInv) :
             List.all_eq_true] at d2
           simpa using d2
         exact AShape.settled total addr facts (by rw [← hacc]; omega) d2'.1 d2'.2
+
+theorem akeep_sub {ctx : Ctx} {a : AmpInv} {g : AHtlc} (h : g ∈ akeep drop ctx a) : g ∈ a.htlcs := by
+  unfold akeep at h
+  cases drop with
+  | false => simpa using h
+  | true => simp only [if_true] at h; exact (List.mem_filter.mp h).1
+
+theorem akeep_sublist (ctx : Ctx) (a : AmpInv) : (akeep drop ctx a).Sublist a.htlcs := by
+  unfold akeep
+  cases drop with
+  | false => simp
+  | true => simp only [if_true]; exact List.filter_sublist
+
+/-- what the kv store's blob rewrite keeps: every htlc of another set id and every accepted htlc. -/
+theorem akeep_mem {ctx : Ctx} {a : AmpInv} {g : AHtlc} (hm : g ∈ a.htlcs)
+    (hk : g.setID ≠ ctx.setID ∨ g.base.state = .accepted) : g ∈ akeep drop ctx a := by
+  unfold akeep
+  cases drop with
+  | false => simpa using hm
+  | true =>
+    simp only [if_true]
+    refine List.mem_filter.mpr ⟨hm, ?_⟩
+    rcases hk with hk | hk
+    · simp [hk]
+    · simp [hk]
+
+theorem akeep_false (ctx : Ctx) (a : AmpInv) : akeep false ctx a = a.htlcs := by
+  unfold akeep; simp
 
 /-- what is recorded about an AMP htlc: it passed the accept-time checks, and if it is settled
     its recorded preimage hashes to its payment hash. -/
@@ -259,42 +296,42 @@ theorem newHtlc_ok {R} {ctx : Ctx} {a : AmpInv} {total addr : Nat} (f : AddFacts
   · exact f.m2
 
 theorem anotify_good {R} {ctx : Ctx} {a : AmpInv} (hg : AGood H R a) (hR : ctx.rejectDelta = R) :
-    AGood H R (anotify H P ctx a).1 := by
-  have sh := anotify_shape (H := H) (P := P) ctx a
-  generalize (anotify H P ctx a).1 = a' at sh
-  generalize (anotify H P ctx a).2.1 = r at sh
-  generalize (anotify H P ctx a).2.2 = msgs at sh
+    AGood H R (anotify H P drop ctx a).1 := by
+  have sh := anotify_shape (H := H) (P := P) (drop := drop) ctx a
+  generalize (anotify H P drop ctx a).1 = a' at sh
+  generalize (anotify H P drop ctx a).2.1 = r at sh
+  generalize (anotify H P drop ctx a).2.2 = msgs at sh
   cases sh with
   | same => exact hg
   | replaySettled => exact hg
-  | partialAdd total addr f hlt =>
+  | partialAdd total addr f hns hlt =>
     refine ⟨?_, ?_⟩
     · simp only [List.map_append, List.map_cons, List.map_nil]
       rw [List.nodup_append]
-      refine ⟨hg.nodup, by simp, ?_⟩
+      refine ⟨hg.nodup.sublist ((akeep_sublist ctx a).map _), by simp, ?_⟩
       intro x hx y hy
       obtain ⟨g, hg', rfl⟩ := List.mem_map.mp hx
       simp at hy; subst hy
-      exact f.fresh g hg'
+      exact f.fresh g (akeep_sub hg')
     · intro h hh
       rcases List.mem_append.mp hh with hh | hh
-      · exact hg.each h hh
+      · exact hg.each h (akeep_sub hh)
       · simp at hh; subst hh; exact newHtlc_ok (a := a) f hR
   | reconFail total addr f hns => exact cancelWhere_good hg _ _
   | settled total addr f hge h0 hall =>
     -- first the list with the new htlc, then the settle map
-    have hg1 : AGood H R { a with htlcs := a.htlcs ++ [mkAHtlc ctx total (decide (addr = a.payAddr))] } := by
+    have hg1 : AGood H R { a with htlcs := akeep drop ctx a ++ [mkAHtlc ctx total (decide (addr = a.payAddr))] } := by
       refine ⟨?_, ?_⟩
       · simp only [List.map_append, List.map_cons, List.map_nil]
         rw [List.nodup_append]
-        refine ⟨hg.nodup, by simp, ?_⟩
+        refine ⟨hg.nodup.sublist ((akeep_sublist ctx a).map _), by simp, ?_⟩
         intro x hx y hy
         obtain ⟨g, hg', rfl⟩ := List.mem_map.mp hx
         simp at hy; subst hy
-        exact f.fresh g hg'
+        exact f.fresh g (akeep_sub hg')
       · intro h hh
         rcases List.mem_append.mp hh with hh | hh
-        · exact hg.each h hh
+        · exact hg.each h (akeep_sub hh)
         · simp at hh; subst hh; exact newHtlc_ok (a := a) f hR
     refine agood_map hg1 (settleOne P ctx (adescs ctx (aacc ctx a))) ?_ _ rfl rfl rfl
     intro g hgm
@@ -307,7 +344,7 @@ theorem anotify_good {R} {ctx : Ctx} {a : AmpInv} (hg : AGood H R a) (hR : ctx.r
       refine ⟨_, rfl, ?_⟩
       simp only [Bool.and_eq_true, beq_iff_eq] at c
       rcases List.mem_append.mp hgm with hgm | hgm
-      · exact hall g ((mem_aacc f.amp).mpr ⟨hgm, c.1, c.2⟩)
+      · exact hall g ((mem_aacc f.amp).mpr ⟨akeep_sub hgm, c.1, c.2⟩)
       · simp at hgm; subst hgm; exact h0
     · simp only [c]; exact ⟨rfl, hok⟩
 
@@ -360,12 +397,12 @@ theorem asettleMsgs_settled {R} {ctx : Ctx} {a : AmpInv} (hg : AGood H R a) {k :
 /-- a settle answer of the AMP notify path: the htlc of the call is recorded settled with exactly
     the released preimage, which hashes to the htlc's payment hash = the hash of the call. -/
 theorem anotify_settle {R} {ctx : Ctx} {a : AmpInv} (hg : AGood H R a)
-    {k : SettleKind} {p : Nat} {ht : Int} (hr : (anotify H P ctx a).2.1 = .settle k p ht) :
-    ASettled H (anotify H P ctx a).1 ctx.key p ∧ H p = ctx.hash := by
-  have sh := anotify_shape (H := H) (P := P) ctx a
-  generalize (anotify H P ctx a).1 = a' at sh hr ⊢
-  generalize (anotify H P ctx a).2.1 = r at sh hr
-  generalize (anotify H P ctx a).2.2 = msgs at sh
+    {k : SettleKind} {p : Nat} {ht : Int} (hr : (anotify H P drop ctx a).2.1 = .settle k p ht) :
+    ASettled H (anotify H P drop ctx a).1 ctx.key p ∧ H p = ctx.hash := by
+  have sh := anotify_shape (H := H) (P := P) (drop := drop) ctx a
+  generalize (anotify H P drop ctx a).1 = a' at sh hr ⊢
+  generalize (anotify H P drop ctx a).2.1 = r at sh hr
+  generalize (anotify H P drop ctx a).2.2 = msgs at sh
   cases sh with
   | same _ _ hns => exact absurd hr (hns k p ht)
   | replaySettled h q hm hk hs hp hh hH =>
@@ -381,13 +418,13 @@ theorem anotify_settle {R} {ctx : Ctx} {a : AmpInv} (hg : AGood H R a)
 
 theorem anotify_msgs_settle {R} {ctx : Ctx} {a : AmpInv} (hg : AGood H R a) (hR : ctx.rejectDelta = R)
     {k : Nat} {kind : SettleKind} {p : Nat} {ht : Int}
-    (hm : (k, Res.settle kind p ht) ∈ (anotify H P ctx a).2.2) :
-    ASettled H (anotify H P ctx a).1 k p := by
-  have hg' : AGood H R (anotify H P ctx a).1 := anotify_good hg hR
-  have sh := anotify_shape (H := H) (P := P) ctx a
-  generalize (anotify H P ctx a).1 = a' at sh hm hg' ⊢
-  generalize (anotify H P ctx a).2.1 = r at sh
-  generalize (anotify H P ctx a).2.2 = msgs at sh hm
+    (hm : (k, Res.settle kind p ht) ∈ (anotify H P drop ctx a).2.2) :
+    ASettled H (anotify H P drop ctx a).1 k p := by
+  have hg' : AGood H R (anotify H P drop ctx a).1 := anotify_good hg hR
+  have sh := anotify_shape (H := H) (P := P) (drop := drop) ctx a
+  generalize (anotify H P drop ctx a).1 = a' at sh hm hg' ⊢
+  generalize (anotify H P drop ctx a).2.1 = r at sh
+  generalize (anotify H P drop ctx a).2.2 = msgs at sh hm
   cases sh with
   | same _ _ _ hnm => exact absurd hm (hnm k kind p ht)
   | replaySettled h q _ _ _ _ _ _ =>
@@ -403,17 +440,17 @@ theorem anotify_msgs_settle {R} {ctx : Ctx} {a : AmpInv} (hg : AGood H R a) (hR 
     invoice's payment address, and their amounts sum to at least that total; exactly these htlcs
     become settled, each with the child preimage whose hash was compared with its payment hash. -/
 theorem anotify_settle_set {ctx : Ctx} {a : AmpInv} {p : Nat} {ht : Int}
-    (hr : (anotify H P ctx a).2.1 = .settle .settled p ht) :
+    (hr : (anotify H P drop ctx a).2.1 = .settle .settled p ht) :
     ∃ total addr, effMpp ctx = some (total, addr) ∧ addr = a.payAddr ∧ a.value ≤ total ∧
       (∀ g ∈ aacc ctx a, g.base.mppTotal = total) ∧
       total ≤ sumAmt ((aacc ctx a).map (·.base)) + ctx.amt ∧
-      (anotify H P ctx a).1.htlcs =
-        (a.htlcs ++ [mkAHtlc ctx total (decide (addr = a.payAddr))]).map
+      (anotify H P drop ctx a).1.htlcs =
+        (akeep drop ctx a ++ [mkAHtlc ctx total (decide (addr = a.payAddr))]).map
           (settleOne P ctx (adescs ctx (aacc ctx a))) := by
-  have sh := anotify_shape (H := H) (P := P) ctx a
-  generalize (anotify H P ctx a).1 = a' at sh hr ⊢
-  generalize (anotify H P ctx a).2.1 = r at sh hr
-  generalize (anotify H P ctx a).2.2 = msgs at sh
+  have sh := anotify_shape (H := H) (P := P) (drop := drop) ctx a
+  generalize (anotify H P drop ctx a).1 = a' at sh hr ⊢
+  generalize (anotify H P drop ctx a).2.1 = r at sh hr
+  generalize (anotify H P drop ctx a).2.2 = msgs at sh
   cases sh with
   | same _ _ hns => exact absurd hr (hns _ p ht)
   | replaySettled => cases hr
@@ -474,24 +511,72 @@ theorem cancelWhere_mono (a : AmpInv) (pred : AHtlc → Bool) (st : CState) (hs 
   · simp only [c]
     exact ⟨rfl, rfl, rfl, rfl, rfl, HState.le_refl _, fun _ _ x => x⟩
 
-theorem anotify_mono {ctx : Ctx} {a : AmpInv} :
-    AMono a (anotify H P ctx a).1 := by
-  have sh := anotify_shape (H := H) (P := P) ctx a
-  generalize (anotify H P ctx a).1 = a' at sh ⊢
-  generalize (anotify H P ctx a).2.1 = r at sh
-  generalize (anotify H P ctx a).2.2 = msgs at sh
+/-- one step of an AMP invoice on a store that may forget resolved htlcs (`drop`, the kv store,
+    see `akeep`): as `AMono`, except that with `drop` an htlc that is no longer accepted need not
+    be found again.  `AMonoD false` is `AMono`. -/
+def AMonoD (drop : Bool) (a b : AmpInv) : Prop :=
+  a.hash = b.hash ∧ a.value = b.value ∧ a.payAddr = b.payAddr ∧ a.finalCltv = b.finalCltv ∧
+  a.state.le b.state ∧
+  ∀ h ∈ a.htlcs, (drop = true ∧ h.base.state ≠ .accepted) ∨
+    ∃ h' ∈ b.htlcs, h'.base = { h.base with state := h'.base.state } ∧
+    h'.setID = h.setID ∧ h'.hash = h.hash ∧ h'.share = h.share ∧ h'.index = h.index ∧
+    h.base.state.le h'.base.state ∧ (∀ p, h.base.state = .settled → h.pre = some p → h'.pre = some p)
+
+theorem AMono.toD {a b : AmpInv} (h : AMono a b) (drop : Bool) : AMonoD drop a b :=
+  ⟨h.1, h.2.1, h.2.2.1, h.2.2.2.1, h.2.2.2.2.1, fun g hg => Or.inr (h.2.2.2.2.2 g hg)⟩
+
+theorem AMonoD.mono {a b : AmpInv} (h : AMonoD false a b) : AMono a b := by
+  refine ⟨h.1, h.2.1, h.2.2.1, h.2.2.2.1, h.2.2.2.2.1, ?_⟩
+  intro g hg
+  rcases h.2.2.2.2.2 g hg with ⟨c, _⟩ | x
+  · cases c
+  · exact x
+
+theorem amonoD_of_map {a b : AmpInv} (h1 : a.hash = b.hash) (h2 : a.value = b.value)
+    (h3 : a.payAddr = b.payAddr) (h4 : a.finalCltv = b.finalCltv) (hs : a.state.le b.state)
+    (keep extra : List AHtlc) (f : AHtlc → AHtlc) (hl : b.htlcs = (keep ++ extra).map f)
+    (hk : ∀ h ∈ a.htlcs, h ∈ keep ∨ (drop = true ∧ h.base.state ≠ .accepted))
+    (hf : ∀ h ∈ a.htlcs, (f h).base = { h.base with state := (f h).base.state } ∧
+      (f h).setID = h.setID ∧ (f h).hash = h.hash ∧ (f h).share = h.share ∧ (f h).index = h.index ∧
+      h.base.state.le (f h).base.state ∧ (∀ p, h.base.state = .settled → h.pre = some p → (f h).pre = some p)) :
+    AMonoD drop a b := by
+  refine ⟨h1, h2, h3, h4, hs, ?_⟩
+  intro h hh
+  rcases hk h hh with hkeep | hdrop
+  · exact Or.inr ⟨f h, by rw [hl]; exact List.mem_map.mpr ⟨h, by simp [hkeep], rfl⟩, hf h hh⟩
+  · exact Or.inl hdrop
+
+/-- every htlc is kept by the blob rewrite or (kv store only) is no longer accepted. -/
+theorem akeep_or (ctx : Ctx) (a : AmpInv) :
+    ∀ h ∈ a.htlcs, h ∈ akeep drop ctx a ∨ (drop = true ∧ h.base.state ≠ .accepted) := by
+  intro h hh
+  cases drop with
+  | false => left; rw [akeep_false]; exact hh
+  | true =>
+    by_cases c : h.base.state = .accepted
+    · left; exact akeep_mem hh (Or.inr c)
+    · right; exact ⟨rfl, c⟩
+
+theorem anotify_monoD {ctx : Ctx} {a : AmpInv} :
+    AMonoD drop a (anotify H P drop ctx a).1 := by
+  have sh := anotify_shape (H := H) (P := P) (drop := drop) ctx a
+  generalize (anotify H P drop ctx a).1 = a' at sh ⊢
+  generalize (anotify H P drop ctx a).2.1 = r at sh
+  generalize (anotify H P drop ctx a).2.2 = msgs at sh
   cases sh with
-  | same => exact AMono.refl a
-  | replaySettled => exact AMono.refl a
-  | partialAdd total addr f hlt =>
-    refine amono_of_map rfl rfl rfl rfl (CState.le_refl _) [mkAHtlc ctx total (decide (addr = a.payAddr))]
-      (fun h => h) (by simp) ?_
+  | same => exact (AMono.refl a).toD drop
+  | replaySettled => exact (AMono.refl a).toD drop
+  | partialAdd total addr f hns hlt =>
+    refine amonoD_of_map rfl rfl rfl rfl (CState.le_refl _) (akeep drop ctx a)
+      [mkAHtlc ctx total (decide (addr = a.payAddr))] (fun h => h) (by simp) (akeep_or ctx a) ?_
     intro h _
     exact ⟨rfl, rfl, rfl, rfl, rfl, HState.le_refl _, fun _ _ x => x⟩
-  | reconFail total addr f hns => exact cancelWhere_mono a _ _ (by rw [f.isOpen]; simp [CState.le])
+  | reconFail total addr f hns =>
+    exact (cancelWhere_mono a _ _ (by rw [f.isOpen]; simp [CState.le])).toD drop
   | settled total addr f hge h0 hall =>
-    refine amono_of_map rfl rfl rfl rfl (CState.le_refl _) [mkAHtlc ctx total (decide (addr = a.payAddr))]
-      (settleOne P ctx (adescs ctx (aacc ctx a))) rfl ?_
+    refine amonoD_of_map rfl rfl rfl rfl (CState.le_refl _) (akeep drop ctx a)
+      [mkAHtlc ctx total (decide (addr = a.payAddr))]
+      (settleOne P ctx (adescs ctx (aacc ctx a))) rfl (akeep_or ctx a) ?_
     intro h hh
     unfold settleOne
     by_cases c : (h.setID == ctx.setID && h.base.state == .accepted) = true
@@ -502,6 +587,11 @@ theorem anotify_mono {ctx : Ctx} {a : AmpInv} :
       intro p hs; rw [hacc] at hs; cases hs
     · simp only [c]
       exact ⟨rfl, rfl, rfl, rfl, rfl, HState.le_refl _, fun _ _ x => x⟩
+
+/-- on the native SQL store nothing is forgotten. -/
+theorem anotify_mono {ctx : Ctx} {a : AmpInv} :
+    AMono a (anotify H P false ctx a).1 :=
+  (anotify_monoD (H := H) (P := P) (drop := false) (ctx := ctx) (a := a)).mono
 
 
 theorem acancel_mono {a : AmpInv} : AMono a (acancel a).1 := by
@@ -547,7 +637,7 @@ theorem atimeout_msgs {hold now : Nat} {a : AmpInv} {k : Nat} {r : Res}
     obtain ⟨h, _, he⟩ := List.mem_map.mp hm
     simp at he; exact ⟨_, he.2.symm⟩
 
-theorem anotify_hash {ctx : Ctx} {a : AmpInv} : (anotify H P ctx a).1.hash = a.hash :=
-  (anotify_mono (H := H) (P := P) (ctx := ctx) (a := a)).1.symm
+theorem anotify_hash {ctx : Ctx} {a : AmpInv} : (anotify H P drop ctx a).1.hash = a.hash :=
+  (anotify_monoD (H := H) (P := P) (drop := drop) (ctx := ctx) (a := a)).1.symm
 
 end LndModel.C15
